@@ -86,4 +86,6 @@ let () =
   register "stlttiw" (fun r ->
     let t = rtti r in let fps = rz r in let dsc = rstr r in
     if time_faithful t.t_in && time_faithful t.t_out && text_faithful t.t_text then (pint 0; pstr (tti_bytes fps dsc Z0 t))
-    else Buffer.add_string b "NS 0 ")
+    else Buffer.add_string b "NS 0 ");
+  (* C07 plain view: format code 3 *)
+  Drv_plain.register_plain 3 stl_dec stl_enc read_faithful
